@@ -1,0 +1,23 @@
+//go:build verif
+
+package postgresql
+
+import (
+	"context"
+
+	"github.com/cossacklabs/acra/decryptor/base"
+	"github.com/cossacklabs/acra/encryptor/base/config"
+)
+
+// Verification hooks (add-only, compiled with -tags verif only): the column path of a proxy built by
+// proxyFactory.New, without the wire around it.
+
+// VerifX11OnColumnDecryption calls PgProxy.onColumnDecryption (what handleDataRow calls per column).
+func VerifX11OnColumnDecryption(p base.Proxy, ctx context.Context, i int, data []byte, binaryFormat bool, setting config.ColumnEncryptionSetting) ([]byte, error) {
+	return p.(*PgProxy).onColumnDecryption(ctx, i, data, binaryFormat, setting)
+}
+
+// VerifX11Subscribers returns the proxy's column subscribers in notification order.
+func VerifX11Subscribers(p base.Proxy) []base.DecryptionSubscriber {
+	return p.(*PgProxy).decryptionObserver.VerifX11Subscribers()
+}
